@@ -9,7 +9,9 @@
 -/
 import VotelibProofs.Lemmas.C12Approval
 import VotelibProofs.Lemmas.C12Spav
+import VotelibProofs.Lemmas.C12JR
 import VotelibProofs.Lemmas.C12Score
+import VotelibModel.Gen.Quota
 namespace VL.C12
 open VL VL.Appr VL.Score
 
@@ -137,6 +139,66 @@ example : pav [([0, 1], 3), ([2], 2)] 1 = .error .notImplemented := by decide +k
 example : pavSeq [([0, 1], 3), ([2], 2), ([0], 1)] freshCoefs [1, 2, 1]
     = [.ok [Slot.cand 0], .ok [Slot.cand 0, Slot.cand 2], .ok [Slot.cand 0]] := by decide +kernel
 example : WF [([0, 1], 3), ([2], 2), ([0], 1)] := by decide +kernel
+
+/-! ### Justified representation -/
+
+/-- **PAV committees satisfy justified representation** (core form).  `V` votes, `n ≥ 1` seats, non-negative weights:
+    for every candidate `c`, the voters who approve `c` and no elected candidate weigh strictly less than `V / n`. -/
+theorem pav_jr_unrepresented (coefs : List Rat) (hc : CoefsOK coefs) (votes : Profile) (hwf : WF votes)
+    (hnn : NonNeg votes) (n : Nat) (hn1 : 1 ≤ n) (r : List Slot) (h : (pavStep coefs votes n).1 = .ok r)
+    (hV : 0 < totalWeight votes) (c : Cand) :
+    (n : Rat) * unrepresented votes (slotCands r) c < totalWeight votes := by
+  obtain ⟨_, hlen, hnd, hsub⟩ := pav_result_shape coefs hc votes hwf n r h
+  exact jr_core hwf hnn hnd hsub hlen hn1 (fun B hB hl => pav_maximises coefs hc votes hwf n r h B hB hl) hV c
+
+/-- **Justified representation** (group form).  Every group `G` of voters (a sub-collection of the ballots) that is
+    cohesive — all of them approve one common candidate `c` — and large — at least `V / n` votes — contains a voter
+    (with positive weight) who approves at least one elected candidate. -/
+theorem pav_justified_representation (coefs : List Rat) (hc : CoefsOK coefs) (votes : Profile) (hwf : WF votes)
+    (hnn : NonNeg votes) (n : Nat) (hn1 : 1 ≤ n) (r : List Slot) (h : (pavStep coefs votes n).1 = .ok r)
+    (hV : 0 < totalWeight votes)
+    (G : Profile) (hG : G.Sublist votes) (c : Cand) (hcG : ∀ bw ∈ G, c ∈ bw.1)
+    (hsize : totalWeight votes ≤ (n : Rat) * totalWeight G) :
+    ∃ bw ∈ G, 0 < bw.2 ∧ ∃ x ∈ slotCands r, x ∈ bw.1 := by
+  by_contra hno
+  have hno' : ∀ bw ∈ G, 0 < bw.2 → ∀ x ∈ slotCands r, x ∉ bw.1 := by
+    intro bw hbw hpos x hx hxb
+    exact hno ⟨bw, hbw, hpos, x, hx, hxb⟩
+  have hcore := pav_jr_unrepresented coefs hc votes hwf hnn n hn1 r h hV c
+  set W := slotCands r with hW
+  let f : Ballot × Rat → Rat := fun bw => if c ∈ bw.1 ∧ interLen bw.1 W = 0 then bw.2 else 0
+  have hGle : totalWeight G ≤ (G.map f).sum := by
+    unfold totalWeight
+    apply List.sum_le_sum
+    intro bw hbw
+    have hw : 0 ≤ bw.2 := hnn bw (hG.subset hbw)
+    rcases lt_or_eq_of_le hw with hpos | hzero
+    · have hk : interLen bw.1 W = 0 := by
+        unfold interLen
+        rw [List.length_eq_zero_iff, List.filter_eq_nil_iff]
+        intro y hy hyW
+        exact hno' bw hbw hpos y (by simpa using hyW) hy
+      show bw.2 ≤ if c ∈ bw.1 ∧ interLen bw.1 W = 0 then bw.2 else 0
+      rw [if_pos ⟨hcG bw hbw, hk⟩]
+    · show bw.2 ≤ if c ∈ bw.1 ∧ interLen bw.1 W = 0 then bw.2 else 0
+      split <;> linarith
+  have hsub : (G.map f).sum ≤ (votes.map f).sum := by
+    apply List.Sublist.sum_le_sum (hG.map f)
+    intro a ha
+    obtain ⟨bw, hbw, rfl⟩ := List.mem_map.mp ha
+    show 0 ≤ if c ∈ bw.1 ∧ interLen bw.1 W = 0 then bw.2 else 0
+    split
+    · exact hnn bw hbw
+    · exact le_refl _
+  have hu : (votes.map f).sum = unrepresented votes W c := rfl
+  have hnpos : (0 : Rat) ≤ n := by positivity
+  have : (n : Rat) * totalWeight G ≤ (n : Rat) * unrepresented votes W c := by
+    apply mul_le_mul_of_nonneg_left _ hnpos
+    linarith
+  linarith
+
+example : NonNeg [([0, 1], 3), ([2], 2), ([0], 1)] ∧ 0 < totalWeight [([0, 1], 3), ([2], 2), ([0], 1)] := by
+  decide +kernel
 
 /-! ### Sequential PAV -/
 
@@ -282,5 +344,46 @@ theorem score_eq_spec (cfg : Cfg) (votes : SProfile) (n : Nat) :
 example : aggregateOne .medianLow [(5, 3), (2, 2), (3, 1)] = .ok 3 := by decide +kernel
 example : aggregateOne .mean [(5, 1), (2, 2)] = .ok 3 := by decide +kernel
 example : aggregateOne .medianLow [] = .error (.other "StatisticsError") := by decide +kernel
+
+/-! ### Witnesses of the open findings (the model reproduces the defects of the current code)
+
+  The property text is FALSE of the current code on these inputs; the general statements for these evaluators are
+  therefore listed as unproved in the harness module (`UNPROVED`), and what is proved instead are the parts that hold. -/
+
+/-- plain settings: no unscored value, no minimum count, no truncation -/
+def plainCfg (fn : Agg) : Cfg := { fn := fn, unscored := .none, minCount := 0, trunc := .off, bottom := 0 }
+
+/-- MajorityJudgment, default tie-break: candidates 1 and 3 tie on median 1 for the second seat; 3 holds three grades,
+    1 holds two; after two removals candidate 1 has no grade left and `median_low` raises (not a declared error). -/
+theorem mj_default_tiebreak_witness :
+    majorityJudgment .default (plainCfg .medianLow) [([(1, 1), (2, 2), (3, 1)], 2), ([(3, 2)], 1)] 2
+      = .error (.other "StatisticsError") := by decide +kernel
+
+/-- … while the same profile with every count tripled elects 2 and 3: the rule is not scale-free -/
+theorem mj_default_tiebreak_scale_witness :
+    majorityJudgment .default (plainCfg .medianLow) [([(1, 1), (2, 2), (3, 1)], 6), ([(3, 2)], 3)] 2
+      = .ok [Slot.cand 2, Slot.cand 3] := by decide +kernel
+
+/-- STAR with a run-off of one candidate elects nobody -/
+theorem star_single_runoff_witness :
+    star 0 0 (plainCfg .sum) [([(0, 5), (1, 2)], 2), ([(0, 1), (1, 3)], 1)] 1 = .ok [] := by decide +kernel
+
+/-- STAR drops the candidates tied at the run-off boundary, here leaving the score leader without an opponent -/
+theorem star_boundary_tie_witness :
+    star 1 0 (plainCfg .sum) [([(0, 5), (1, 1), (2, 1)], 2)] 1 = .ok [] := by decide +kernel
+
+/-- STAR loses finalists that nobody ranks strictly apart -/
+theorem star_member_dropped_witness :
+    star 1 0 (plainCfg .sum) [([(0, 5), (1, 5), (2, 0)], 2), ([(0, 4), (1, 4), (2, 1)], 1)] 1 = .ok [] := by
+  decide +kernel
+
+/-- Allocated score: a ballot that grades only the elected candidate makes the next round raise `ValueError` -/
+theorem allocated_empty_ballot_witness :
+    allocatedSelector Gen.Quota.hare [([(0, 5)], 2), ([(1, 3)], 1)] 2 = .error .valueError := by decide +kernel
+
+/-- Allocated score: `IndexError` when the remaining ballots grade nobody -/
+theorem allocated_ballots_run_out_witness :
+    allocatedSelector Gen.Quota.droop [([(1, 2)], 2), ([(0, 4), (1, 3)], 1)] 2 = .error (.other "IndexError") := by
+  decide +kernel
 
 end VL.C12
